@@ -361,3 +361,34 @@ class rechunk_chunks_r1_int:
         x = self.get("array")
         c, s = S.item(self.get("_chunks"), 0), S.item(x.get("shape"), 0)
         return uniform_axis(S.item(result, 0), s, _full_or(c, s))
+
+
+@contract(f"{RC}::_get_chunks", props=["C14"])
+class get_chunks:
+    """the uniform layout of an axis of length n with blocks of `chunksize`: the blocks add up to n, every block is positive
+    and at most chunksize, all but the last equal chunksize, and there are ceil(n / chunksize) of them (the candidates
+    _balance_chunksizes chooses from: whichever it picks covers the axis exactly)"""
+    params = {"n": "int", "chunksize": "int"}
+    ghosts = {"q": "int"}
+    result = "seq"
+
+    def requires(n, chunksize):
+        return S.And(n >= 0, chunksize >= 1)
+
+    def ensures(result, n, chunksize, q):
+        k = S.slen(result)
+        inr = S.And(0 <= q, q < k)
+        return {
+            "adds-up": S.ssum(result) == n,
+            "count": k == S.ceildiv(n, chunksize),
+            "blocks": S.Implies(inr, S.lazy_implies(inr, lambda: S.And(1 <= S.at(result, q), S.at(result, q) <= chunksize,
+                                                                       S.Implies(q < k - 1, S.at(result, q) == chunksize)))),
+        }
+
+    def ghost_domain(n, chunksize):
+        return {"q": range(0, n + 1)}
+
+    def domain(tier, rng):
+        for n in range(0, 30):
+            for c in range(1, 12):
+                yield {"n": n, "chunksize": c}
